@@ -641,3 +641,14 @@ benign('C08', 'scaled columns collected by a comprehension', 'atomman/dump/table
 mutant('C07', 'tilt line decided with an absolute tolerance', 'atomman/dump/atom_data/dump.py', 'if xy != 0.0 or xz != 0.0 or yz != 0.0:', 'if not np.allclose([xy, xz, yz], 0.0):', 'DATA-FILE')
 mutant('C08', 'dump header form decided with an absolute tolerance', 'atomman/dump/atom_dump/dump.py', 'is_orthogonal = (xy == 0.0 and xz == 0.0 and yz == 0.0)', 'is_orthogonal = bool(np.allclose([xy, xz, yz], 0.0))', 'DUMP-FILE')
 benign('C07', 'tilt line decided by any()', 'atomman/dump/atom_data/dump.py', 'if xy != 0.0 or xz != 0.0 or yz != 0.0:', 'if any(t != 0.0 for t in (xy, xz, yz)):')
+
+# regressions of the fix: commits e43274d, b1cb75b (unitconvert.model) and 50cdf3d (GammaSurface)
+mutant('C10', 'regress-e43274d model converts only with a unit', 'atomman/unitconvert.py', "        value = get_in_units(value, units)\n    else:\n        value = np.asarray(value)\n", "        value = get_in_units(value, units)\n", 'ARRAY-LIKE')
+mutant('C09', 'regress-e43274d model converts only with a unit', 'atomman/unitconvert.py', "        value = get_in_units(value, units)\n    else:\n        value = np.asarray(value)\n", "        value = get_in_units(value, units)\n", 'ARRAY-LIKE')
+mutant('C10', 'regress-b1cb75b single value stored as computed', 'atomman/unitconvert.py', "        datamodel['value'] = value.tolist()\n        if error is not None:\n            datamodel['error'] = error.tolist()\n    \n    # 1D array", "        datamodel['value'] = value\n        if error is not None:\n            datamodel['error'] = error\n    \n    # 1D array", 'NATIVE-VALUES')
+mutant('C10', 'model stores the flattened array itself', 'atomman/unitconvert.py', "        datamodel['value'] = value.flatten().tolist()", "        datamodel['value'] = value.flatten()", 'NATIVE-VALUES')
+benign('C10', 'single value through item()', 'atomman/unitconvert.py', "        datamodel['value'] = value.tolist()\n        if error is not None:\n            datamodel['error'] = error.tolist()\n    \n    # 1D array", "        single = value.item()\n        datamodel['value'] = single\n        if error is not None:\n            datamodel['error'] = float(error)\n    \n    # 1D array")
+benign('C10', 'model converts through the unit factor of None', 'atomman/unitconvert.py', "        value = get_in_units(value, units)\n    else:\n        value = np.asarray(value)\n", "        value = get_in_units(value, units)\n    else:\n        value = np.array(value)\n")
+mutant('C18', 'regress-50cdf3d pos_to_a12 takes the position as passed', 'atomman/defect/GammaSurface.py', "        pos = np.asarray(pos)\n\n        # Handle a1vect and a2vect", "        # Handle a1vect and a2vect", 'ARRAY-LIKE')
+mutant('C18', 'regress-50cdf3d pos_to_xy takes the position as passed', 'atomman/defect/GammaSurface.py', "        pos = np.asarray(pos)\n\n        # Handle xvect", "        # Handle xvect", 'ARRAY-LIKE')
+benign('C18', 'position converted only when it is not an array', 'atomman/defect/GammaSurface.py', "        pos = np.asarray(pos)\n\n        # Handle xvect", "        if not isinstance(pos, np.ndarray):\n            pos = np.array(pos, dtype=float)\n\n        # Handle xvect")
